@@ -39,6 +39,33 @@ func init() {
 		}
 		return res
 	}
+	replayExtra["pipeline"] = func(f []string) string {
+		var ref int
+		fmt.Sscanf(f[2], "%d", &ref)
+		raw := []byte{}
+		if len(f) > 3 {
+			raw, _ = hex.DecodeString(f[3])
+		}
+		s := string(raw)
+		c := coding.BestCoding(s)
+		if f[1] == "bestsafe" {
+			c = coding.BestSafeCoding(s)
+		}
+		parts, err := pdu.ComposeMultipartShortMessage(s, c, uint16(ref))
+		res := fmt.Sprintf("text=%s detected data_coding=%d err=%v parts=%d", describeText([]rune(s)), byte(c), err, len(parts))
+		if x, found := firstRejected(c, s); found {
+			res += fmt.Sprintf("; the encoder of data_coding %d rejects %s (rune %d)", byte(c), uplus(x), indexRune([]rune(s), x))
+		}
+		back := ""
+		for _, p := range parts {
+			d, _, _ := implDecode(p.DataCoding, p.Message)
+			back += d
+		}
+		if err == nil {
+			res += fmt.Sprintf("; parts read back as the text: %v", back == s)
+		}
+		return res
+	}
 	replayExtra["multipart-history"] = func(f []string) string {
 		res := ""
 		for _, st := range f[1:] {
@@ -201,11 +228,11 @@ func (cx *c09ctx) checkCompose(s string) {
 	switch {
 	case pan:
 		r.Fail("compose/panic", "Compose panicked", in, "panic", "a message or ErrShortMessageTooLarge")
-		r.Case(in, fmt.Sprintf("compose_out_eq (compose %s) Panic", coqRunes(runes)))
+		r.Case(in, fmt.Sprintf("compose_obs_ok %s Panic", coqRunes(runes)))
 		return
-	case err == pdu.ErrShortMessageTooLarge:
+	case isTooLarge(err):
 		r.Count(in, true, "compose: does not fit one message")
-		r.Case(in, fmt.Sprintf("compose_out_eq (compose %s) (Err ESize)", coqRunes(runes)))
+		r.Case(in, fmt.Sprintf("compose_obs_ok %s (Err ESize)", coqRunes(runes)))
 		return
 	case err != nil:
 		c := coding.BestCoding(s)
@@ -218,11 +245,11 @@ func (cx *c09ctx) checkCompose(s string) {
 				in, fmt.Sprintf("error %v", err), "a composed message")
 		}
 		r.Count(in, true, "compose: encoder error")
-		r.Case(in, fmt.Sprintf("compose_out_eq (compose %s) (Err EText)", coqRunes(runes)))
+		r.Case(in, fmt.Sprintf("compose_obs_ok %s (Err EText)", coqRunes(runes)))
 		return
 	}
 	r.Count(in, len(s) > 0, "compose: "+labelName(m.DataCoding))
-	r.Case(in, fmt.Sprintf("compose_out_eq (compose %s) (Ok (%d, %s))", coqRunes(runes), byte(m.DataCoding), coqHex(m.Message)))
+	r.Case(in, fmt.Sprintf("compose_obs_ok %s (Ok (%d, %s))", coqRunes(runes), byte(m.DataCoding), coqHex(m.Message)))
 	var back string
 	var perr error
 	pan, _ = guard(func() { back, perr = m.Parse() })
@@ -243,7 +270,10 @@ func corrC09(r *Run) {
 	r.Import("Model.Base")
 	r.Import("Model.IntervalMap")
 	r.Import("Model.Charset")
+	r.Import("Model.Splitter")
+	r.Import("Model.Compose") // before Model.Detect: `compose` in the cases is Detect.compose (ShortMessage.Compose)
 	r.Import("Model.Detect")
+	r.Import("Model.ComposePipeline")
 	r.PerShard(100)
 	r.Rule = "every Unicode scalar value as a one-character text through BestCoding and BestSafeCoding, the returned coding's encoder and decoder " +
 		"(exhaustive, direct); random mixed-script texts per target coding (runes the alphabet table of the target admits; GSM texts with every septet " +
@@ -428,7 +458,54 @@ func corrC09(r *Run) {
 			cx.checkHistory(0, nil, false, texts, fmt.Sprintf("history of %d Compose calls", k))
 		}
 	}
-	n := r.N(22, 800)
+	// ---- long texts: the detectors must look at the WHOLE text (a rune the coding cannot carry may come after any
+	// number of runes / octets), and the pipeline BestCoding -> ComposeMultipartShortMessage -> decode every part -> join.
+	// A long text is a random block of 9..40 runes repeated, with one rune of another repertoire at the very end or
+	// between two repetitions behind the first 256 runes / 1024 octets (the block structure keeps the Gallina term small).
+	{
+		foreign := []rune{0x1F600, 0x0416, 0x05D0, 0x65E5, 0xAC00, 0x00E9, 0x20AC, 0x0E01, 0x10000, 0x0100}
+		lens := [][2]int{{257, 140}, {1025, 200}}
+		if !r.Quick {
+			lens = append(lens, [2]int{300, 700}, [2]int{2000, 3000})
+		}
+		for pi, p := range pools {
+			name := labelName(p.dc)
+			small := p.dc != coding.ShiftJISCoding && p.dc != coding.EUCKRCoding // small encoder tables: long texts are cheap for the model
+			ls := lens
+			if small {
+				ls = append(append([][2]int{}, lens...), [2]int{3000, 2001})
+			}
+			for li, lh := range ls {
+				ln := lh[0] + r.Rng.Intn(lh[1])
+				bl := 9 + r.Rng.Intn(32)
+				block := make([]rune, bl)
+				for k := range block {
+					x := p.good[r.Rng.Intn(len(p.good))]
+					if p.dc == coding.GSM7BitCoding && x == '\r' {
+						x = 'a'
+					}
+					block[k] = x
+				}
+				reps := (ln + bl - 1) / bl
+				model := small || reps*bl <= 600
+				emitLong(cx, longText{block: block, k1: reps}, name+" long text", model, uint16(r.Rng.Intn(65536)))
+				// one rune of another repertoire at the very end / somewhere behind the first 256 runes (1024 octets)
+				for v := 0; v < 2; v++ {
+					f := foreign[(pi+li+v*3+r.Rng.Intn(2))%len(foreign)]
+					lt := longText{block: block, k1: reps, mid: []rune{f}}
+					if v == 1 {
+						first := 256/bl + 1 + r.Rng.Intn(reps-256/bl)
+						if r.Rng.Intn(2) == 0 && reps*bl > 1100 {
+							first = 1024/bl + 1 + r.Rng.Intn(reps-1024/bl)
+						}
+						lt = longText{block: block, k1: first, mid: []rune{f}, k2: reps - first}
+					}
+					emitLong(cx, lt, name+" long text with one rune of another repertoire behind the first 256", model && v == 0, uint16(255+r.Rng.Intn(2)))
+				}
+			}
+		}
+	}
+	n := r.N(22, 500) // thorough: 500 (was 800) since the long texts and the pipeline were added; the tier must stay within 10 min
 	for _, p := range pools {
 		name := labelName(p.dc)
 		for i := 0; i < n; i++ {
@@ -475,8 +552,186 @@ func corrC09(r *Run) {
 				bucket = name + " text with a foreign-script rune"
 			}
 			emit(string(rs), bucket)
+			if i%11 == 10 || (r.Quick && i%13 == 5) {
+				cx.checkPipeline("best", coding.BestCoding, string(rs), "", uint16(r.Rng.Intn(65536)), true)
+			}
 		}
 	}
+}
+
+// longText: block^k1 ++ mid ++ block^k2
+type longText struct {
+	block  []rune
+	k1, k2 int
+	mid    []rune
+}
+
+func (t longText) runes() []rune {
+	var out []rune
+	for i := 0; i < t.k1; i++ {
+		out = append(out, t.block...)
+	}
+	out = append(out, t.mid...)
+	for i := 0; i < t.k2; i++ {
+		out = append(out, t.block...)
+	}
+	return out
+}
+
+func (t longText) coq() string {
+	return fmt.Sprintf("(rept %d %s ++ %s ++ rept %d %s)", t.k1, coqRunes(t.block), coqRunes(t.mid), t.k2, coqRunes(t.block))
+}
+
+// emitLong: one long text through both detectors (direct: the returned coding must encode the whole text and decode
+// back), the model's labels, and the pipeline detector -> ComposeMultipartShortMessage for both detectors.
+func emitLong(cx *c09ctx, lt longText, bucket string, model bool, ref uint16) {
+	r := cx.r
+	runes := lt.runes()
+	s := string(runes)
+	key := fmt.Sprintf("text %s", hex.EncodeToString([]byte(s)))
+	r.Count(key, true, bucket)
+	c, out, ok := cx.checkText("best", coding.BestCoding, s)
+	cs, _, _ := cx.checkText("bestsafe", coding.BestSafeCoding, s)
+	txt := lt.coq()
+	r.Case("best "+clip(key, 60), fmt.Sprintf("(let t := %s in (dc_of_label (best t) =? %d) && (dc_of_label (best_safe t) =? %d))", txt, byte(c), byte(cs)))
+	if model {
+		r.Case("encode_l best "+clip(key, 60), fmt.Sprintf("same_out (encode_l %s %s) %s", coqLabel(c), txt, coqOutBytes(out, ok, false)))
+		if ok {
+			d, dok, dpan := implDecode(c, out)
+			want := "(Err EDecode)"
+			if dpan {
+				want = "Panic"
+			} else if dok && d == s {
+				want = "(Ok " + txt + ")"
+			} else if dok {
+				want = coqOutRunes(d, dok, dpan)
+			}
+			r.Case("decode_l best "+clip(key, 60), fmt.Sprintf("same_out (decode_l %s %s) %s", coqLabel(c), coqHex(out), want))
+		}
+	}
+	cx.checkPipeline("best", coding.BestCoding, s, txt, ref, model)
+	if cs != c {
+		cx.checkPipeline("bestsafe", coding.BestSafeCoding, s, txt, ref, model && len(runes) <= 1500)
+	}
+}
+
+// checkPipeline: text -> detector -> ComposeMultipartShortMessage with the detected coding -> every part decoded with the
+// coding it carries -> joined.  C09: never fails for lack of an encoding (an error is acceptable only as "too large" /
+// "too many parts"), never stores octets that read back as another text.
+func (cx *c09ctx) checkPipeline(op string, detect func(string) coding.DataCoding, s, txt string, ref uint16, model bool) {
+	r := cx.r
+	runes := []rune(s)
+	c := detect(s)
+	name := labelName(c)
+	in := fmt.Sprintf("pipeline %s %d %s", op, ref, hex.EncodeToString([]byte(s)))
+	var parts []pdu.ShortMessage
+	var err error
+	pan, msg := guard(func() { parts, err = pdu.ComposeMultipartShortMessage(s, c, ref) })
+	r.Count(in, true, "pipeline "+op+" -> multipart: "+name)
+	cls := 0
+	switch {
+	case pan:
+		cls = 2
+		r.Fail("pipeline/"+name+"/panic", "ComposeMultipartShortMessage panicked on the detected coding", in, msg, "parts or an error")
+	case err != nil:
+		cls = 1
+		x, found := firstRejected(c, s)
+		switch {
+		case found && inRanges(cx.known[c], x):
+			// finding D17, reported for this text by the detector test above (class best/<coding>/alphabet-admits-unencodable-rune)
+		case found:
+			r.Fail("pipeline/"+name+"/unencodable/"+uplus(x), "composing with the detected coding fails for lack of an encoding", in,
+				fmt.Sprintf("%s returned data_coding %d, error %v (the encoder rejects %s at rune %d of %d)", op, byte(c), err, uplus(x), indexRune(runes, x), len(runes)), "parts")
+		case !isTooLarge(err) && !isTooMany(err):
+			r.Fail("pipeline/"+name+"/fails-for-lack-of-an-encoding", "composing with the detected coding fails although the encoder accepts every character", in,
+				fmt.Sprintf("%s returned data_coding %d, error %v", op, byte(c), err), "parts, or a refusal for size")
+		default:
+			r.Hist["pipeline refused for size: "+name]++
+		}
+	default:
+		var pieces [][]rune
+		var joined []rune
+		okAll := true
+		for i, p := range parts {
+			if p.UDHeader.Len()+len(p.Message) > 140 {
+				r.Fail("pipeline/"+name+"/part-exceeds-140", "a part exceeds 140 octets", in, fmt.Sprintf("part %d/%d: %d + %d octets", i+1, len(parts), p.UDHeader.Len(), len(p.Message)), "at most 140")
+			}
+			var d string
+			var dok bool
+			pc := p.DataCoding
+			d, dok, _ = implDecode(pc, p.Message)
+			if !dok {
+				okAll = false
+				r.Fail("pipeline/"+name+"/part-does-not-decode", "a part does not decode with the data coding it carries", in,
+					fmt.Sprintf("part %d/%d data_coding=%d octets=%x", i+1, len(parts), byte(pc), p.Message), "decodes")
+				break
+			}
+			pieces = append(pieces, []rune(d))
+			joined = append(joined, []rune(d)...)
+		}
+		if okAll && !eqRunes(joined, runes) {
+			if c == coding.GSM7BitCoding && gsm7JoinModuloCR(runes, pieces) {
+				// a segment of 8k septets ending in CR reads back without it: the known GSM 03.38 6.1.2.3.1 class, per part
+				r.Fail("pipeline/gsm7/final-CR-at-8k-septets", "a GSM 7-bit part of 8k septets ending in CR reads back without the CR", in,
+					fmt.Sprintf("%d parts, joined %s", len(parts), describeText(joined)), "the text "+describeText(runes))
+			} else {
+				r.Fail("pipeline/"+name+"/parts-read-back-as-another-text", "the parts, decoded with the coding they carry and joined, are not the text", in,
+					fmt.Sprintf("%d parts, joined %s", len(parts), describeText(joined)), "the text "+describeText(runes))
+			}
+		}
+	}
+	if model {
+		var obs []string
+		for _, p := range parts {
+			obs = append(obs, fmt.Sprintf("(%s, %s)", coqUDH(p.UDHeader), coqHex(p.Message)))
+		}
+		if cls != 0 {
+			obs = nil
+		}
+		fn := "best"
+		if op == "bestsafe" {
+			fn = "best_safe"
+		}
+		if txt == "" {
+			txt = coqText(runes)
+		}
+		r.Case(clip(in, 80), fmt.Sprintf("pipeline_case %s %d %s %d %d %s", fn, ref, txt, byte(c), cls, coqList(obs)))
+	}
+}
+
+// gsm7JoinModuloCR: do the decoded pieces reproduce the text, where a piece may have lost its final CR exactly when,
+// counting that CR, the segment has a positive multiple of 8 septets (the known GSM 03.38 6.1.2.3.1 class; septets as the
+// running encoder counts them)?
+func gsm7JoinModuloCR(text []rune, pieces [][]rune) bool {
+	var rec func(pos, i int) bool
+	rec = func(pos, i int) bool {
+		if i == len(pieces) {
+			return pos == len(text)
+		}
+		d := pieces[i]
+		if pos+len(d) > len(text) || !eqRunes(text[pos:pos+len(d)], d) {
+			return false
+		}
+		if rec(pos+len(d), i+1) {
+			return true
+		}
+		if pos+len(d) < len(text) && text[pos+len(d)] == '\r' {
+			if n := gsm7SeptetCount(string(d) + "\r"); n > 0 && n%8 == 0 {
+				return rec(pos+len(d)+1, i+1)
+			}
+		}
+		return false
+	}
+	return rec(0, 0)
+}
+
+func indexRune(rs []rune, x rune) int {
+	for i, y := range rs {
+		if y == x {
+			return i
+		}
+	}
+	return -1
 }
 
 // ---------------------------------------------------------------- histories on ONE reused ShortMessage value
@@ -524,7 +779,7 @@ func (cx *c09ctx) checkHistory(presetDC byte, presetMsg []byte, usePreset bool, 
 		case pan:
 			st.status = 3
 			r.Fail("compose-history/panic", "Compose panicked on a reused ShortMessage", in, "panic at "+where, "a message or an error")
-		case err == pdu.ErrShortMessageTooLarge:
+		case isTooLarge(err):
 			st.status = 1
 		case err != nil:
 			st.status = 2
